@@ -783,11 +783,12 @@ def conc_oracle(case_text, real_lines):
             t = l.split(" -> ")
             a = t[0].split()
             results[(int(a[1][1:]), int(a[2]))] = t[1]
-    # C04: every visible index entry has its blob
+    # C04: every visible index entry has its blob (except a blob the case itself turned into a directory)
+    sabotaged = {HASH(parse_chunks(l.split()[1])) for l in case_text.splitlines() if l.startswith("undeletable ")}
     for (i, tid, frm, to, idx, cas) in steps:
         if idx is not None:
             for k, (h, sz) in idx.items():
-                if h not in cas:
+                if h not in cas and h not in sabotaged:
                     fails.append(("dangling", f"after step {i} (t{tid} {frm} -> {to}): key {k} -> blob {h[:16]}.. but no such file under cas/"))
     # C07: at the end everything is quiescent
     if steps and all(ended.get((tid, c)) is not None for tid in calls for c in range(len(calls[tid]))):
